@@ -1,5 +1,7 @@
 //! pkverif: conformance harness binding the TLA+ specifications in /verif/spec to the code in /repo.
 mod hid;
+mod psl;
+mod rpid;
 mod util;
 
 fn main() {
@@ -11,6 +13,8 @@ fn main() {
     let args = util::Args::parse(&raw[1..]);
     match raw[0].as_str() {
         "hid" => hid::main(&args),
+        "psl" => psl::main(&args),
+        "rpid" => rpid::main(&args),
         other => {
             eprintln!("pkverif: unknown domain {other}");
             std::process::exit(2);
